@@ -305,9 +305,9 @@ Definition applied_at_most_once (c : cmd) (flag : bool) (s : db) (k : N) (s' : d
   (forall k0 m', k0 <> k -> aget (mgrs s') k0 = Some m' -> m_data m' = gd s k0)
   /\ (forall m', aget (mgrs s') k = Some m' ->
         aofle (gd s k) (m_data m')
-        \/ exists frame lk wt recov ld,
-             c_data c = Some frame /\ flag = true
-             /\ vstep (mk_env c lk wt recov) frame ld (gd s k) (m_data m') ev).
+        \/ exists frame env ld,
+             c_data c = Some frame /\ flag = true /\ pe_islock env = c_lock c /\ pe_flag env = c_flag c
+             /\ vstep env frame ld (gd s k) (m_data m') ev).
 
 Lemma vals_kept_marked k s s' : vals_kept s s' -> vals_marked k s s'.
 Proof. intros H. split; [intros; auto|]. intros m' Hm'. rewrite (H k m' Hm'). apply aofle_refl. Qed.
@@ -315,21 +315,37 @@ Proof. intros H. split; [intros; auto|]. intros m' Hm'. rewrite (H k m' Hm'). ap
 Lemma vals_marked_once c flag k s s' ev : vals_marked k s s' -> applied_at_most_once c flag s k s' ev.
 Proof. intros (H1 & H2). split; [exact H1|]. intros m' Hm'. left. auto. Qed.
 
-Lemma value_effect_once c flag lk wt recov ld s k s' ev :
-  value_effect c flag (mk_env c lk wt recov) ld s k s' ev -> applied_at_most_once c flag s k s' ev.
+Lemma value_effect_once_env c flag env ld s k s' ev :
+  pe_islock env = c_lock c -> pe_flag env = c_flag c ->
+  value_effect c flag env ld s k s' ev -> applied_at_most_once c flag s k s' ev.
 Proof.
-  intros (H1 & H2). split; [exact H1|]. intros m' Hm'. specialize (H2 m' Hm').
+  intros He1 He2 (H1 & H2 & _). split; [exact H1|]. intros m' Hm'. specialize (H2 m' Hm').
   destruct (c_data c) as [frame|] eqn:Ec; [|left; exact H2].
   destruct flag; [|left; exact H2].
-  right. exists frame, lk, wt, recov, ld. auto.
+  right. exists frame, env, ld. auto.
 Qed.
+Lemma value_effect_once c flag lk wt recov ld s k s' ev :
+  value_effect c flag (mk_env c lk wt recov) ld s k s' ev -> applied_at_most_once c flag s k s' ev.
+Proof. apply value_effect_once_env; reflexivity. Qed.
 
 (* no frame, or the flag is not set: no value operation *)
 Lemma value_effect_noframe c flag env ld s k s' ev :
   flag = false \/ c_data c = None -> value_effect c flag env ld s k s' ev -> vals_marked k s s'.
 Proof.
-  intros Hf (H1 & H2). split; [exact H1|]. intros m' Hm'. specialize (H2 m' Hm').
+  intros Hf (H1 & H2 & _). split; [exact H1|]. intros m' Hm'. specialize (H2 m' Hm').
   destruct Hf as [-> | Hn]; [destruct (c_data c); exact H2|]. rewrite Hn in H2. exact H2.
+Qed.
+
+(* the data layer fails (panic / EXECUTE): a panic event is in the output, no value changes; whatever else the
+   request did (grant, release, reply) stands *)
+Lemma value_effect_failure c env ld s k s' ev frame :
+  value_effect c true env ld s k s' ev -> c_data c = Some frame ->
+  pd_failed (process_lock_data env frame (gd s k) ld) ->
+  vals_marked k s s' /\ exists site, In (EPanic site) ev.
+Proof.
+  intros (H1 & H2 & H3) Hc Hp. split; [|eauto]. split; [exact H1|].
+  intros m' Hm'. specialize (H2 m' Hm'). rewrite Hc in H2. unfold vstep in H2.
+  destruct (process_lock_data env frame (gd s k) ld) as [[cur' ld']| | |]; [contradiction| | |]; apply H2.
 Qed.
 
 Lemma lock_value_once s conn c s' ev w :
@@ -359,7 +375,7 @@ Lemma lock_no_frame_value s conn c s' ev w :
   lock_step s conn c = (s', ev, w) -> has_data_flag c = false \/ c_data c = None -> vals_marked (c_key c) s s'.
 Proof.
   intros H Hf. apply lock_value_once in H. destruct H as (H1 & H2). split; [exact H1|].
-  intros m' Hm'. destruct (H2 m' Hm') as [Hx|(frame & lk & wt & recov & ld & Hc & Hfl & _)]; [exact Hx|].
+  intros m' Hm'. destruct (H2 m' Hm') as [Hx|(frame & env & ld & Hc & Hfl & _)]; [exact Hx|].
   destruct Hf; congruence.
 Qed.
 
@@ -510,4 +526,18 @@ Proof.
     + exfalso. destruct H as (-> & _). destruct Hin.
     + exfalso. destruct H as (_ & _ & lc & lrc & -> & _). destruct Hin as [<-|[]]. discriminate.
     + exfalso. destruct H as (_ & (site & ->) & _). destruct Hin as [<-|[]]. discriminate.
+Qed.
+
+(* a granted Lock whose frame makes the data layer fail: the grant stands (it is in the output), the failure is
+   reported by a panic event, and no value changes *)
+Lemma lock_grant_failure s conn c s' ev w k' r' b cc rc frame :
+  lock_step s conn c = (s', ev, w) -> In (EGrant k' r' true b cc rc) ev ->
+  c_data c = Some frame -> has_data_flag c = true ->
+  (forall recov, pd_failed (process_lock_data
+                   (mk_env c (add32 (m_locked (getm s (c_key c))) 1) (m_waited (getm s (c_key c))) recov)
+                   frame (gd s (c_key c)) None)) ->
+  vals_marked (c_key c) s s' /\ exists site, In (EPanic site) ev.
+Proof.
+  intros H Hin Hc Hf Hp. destruct (lock_grant_value _ _ _ _ _ _ _ _ _ _ _ H Hin) as (_ & _ & recov & _ & Hv).
+  rewrite Hf in Hv. eapply value_effect_failure; eauto.
 Qed.
